@@ -25,6 +25,16 @@ static inline void JSONV_set_int(JSONV* r, int64_t x) { r->kind = JK_int64_t; r-
 static inline void JSONV_set_float(JSONV* r, double x) { r->kind = JK_double; r->f = x; }
 static inline void JSONV_set_string(JSONV* r, const vstr* x) { r->kind = JK_string; r->s = *x; }   /* JSON(string&&): same characters */
 
+/* `ret = JSON::list();` / `ret.emplace_back(v)` / `ret = JSON::dict();` / `ret.emplace(key, v)`: containers are abstracted to their
+ * element count.  unordered_map::emplace inserts iff the key is not present yet; the harnesses only feed pairwise distinct keys
+ * (the keys of the serialised dictionary), so every emplace inserts. */
+static inline void JSONV_set_list(JSONV* r) { r->kind = JK_list_type; r->n = 0; }
+static inline void JSONV_list_emplace_back(JSONV* r, const JSONV* v) { (void)v; r->n++; }
+static inline void JSONV_set_dict(JSONV* r) { r->kind = JK_dict_type; r->n = 0; }
+static inline void JSONV_dict_emplace(JSONV* r, const vstr* key, const JSONV* v) { (void)key; (void)v; r->n++; }
+#define JSONV_GET_list_type(self) ((self)->n)
+#define JSONV_GET_dict_type(self) ((self)->n)
+
 /* ---- std::string ------------------------------------------------------------------------------------------------- */
 #define VSTR_NPOS ((size_t)-1)
 /* s += "literal" / s = "literal" / return "literal": appends the characters of a NUL-terminated literal of at most 8 characters
